@@ -12,7 +12,7 @@ ASSUMPTIONS = ["degrade(upgrade(m)) is compared on the valid set and values (the
 
 
 def histories(rng, tier):
-    n = 120 if tier == 'quick' else 2500
+    n = 300 if tier == 'quick' else 2500
     out = []
     for _ in range(n):
         c = gen.rand_cfg(rng, kinds=['flt', 'flt', 'int', 'int', 'bool', 'rec', 'wide', 'packed'], max_npix=192, name='m')
